@@ -320,7 +320,8 @@ def rand_value(rng):
     if c < .8:
         return rng.randrange(0, 10 ** 6) / 100.0
     if c < .9:
-        return V.rand_datetime(rng).replace(microsecond=0)
+        d = V.rand_datetime(rng)
+        return d if rng.random() < .4 else d.replace(microsecond=0)  # with and without a sub-second part
     return V.rand_timedelta(rng)
 
 
@@ -459,8 +460,10 @@ def run_random_history(case, rec):
             doc = docs_[tr.doc_i]
             if rng.random() < .5 and len(doc.sheets[tr.sheet_i].tables) < 3:
                 R, Cn = rng.randint(1, 5), rng.randint(1, 4)
-                opx = {"op": "add_table", "doc": tr.doc_i, "sheet": tr.sheet_i, "num_rows": R, "num_cols": Cn}
-                r_, t = log.call(opx, lambda: doc.sheets[tr.sheet_i].add_table(num_rows=R, num_cols=Cn, num_header_rows=0, num_header_cols=0))
+                # with explicit header counts (0 .. the size) or with the defaults: the shape asked for is the shape obtained
+                hk = {} if rng.random() < .4 else {"num_header_rows": rng.randint(0, min(R, 2)), "num_header_cols": rng.randint(0, min(Cn, 2))}
+                opx = {"op": "add_table", "doc": tr.doc_i, "sheet": tr.sheet_i, "num_rows": R, "num_cols": Cn, **hk}
+                r_, t = log.call(opx, lambda: doc.sheets[tr.sheet_i].add_table(num_rows=R, num_cols=Cn, **hk))
                 if r_["outcome"] == "exc":
                     rec.violation("in_contract_op_raised", {"op": "add_table", "exc": r_["exc_type"]}, {"msg": r_["exc_msg"]}, case=case)
                     return False
